@@ -935,6 +935,12 @@ func (c *Ctx) Show(t *Term) string {
 // Query renders "assumptions ∧ ¬goal" as an SMT-LIB2 script.  getValues are
 // terms whose model value is requested after check-sat.
 func (c *Ctx) Query(assumes []*Term, goal *Term, getValues []*Term, timeoutMs int) string {
+	s, _ := c.QueryGV(assumes, goal, getValues, timeoutMs)
+	return s
+}
+
+// QueryGV is Query that also returns, per requested value, the symbol under which the solver reports it.
+func (c *Ctx) QueryGV(assumes []*Term, goal *Term, getValues []*Term, timeoutMs int) (string, []string) {
 	body := &strings.Builder{}
 	p := &printer{c: c, names: map[int]string{}, out: body, used: map[string]bool{}}
 	for _, a := range assumes {
@@ -945,12 +951,14 @@ func (c *Ctx) Query(assumes []*Term, goal *Term, getValues []*Term, timeoutMs in
 	p.define(ng)
 	fmt.Fprintf(body, "(assert %s)\n", p.ref(ng))
 	var gv []string
-	for _, t := range getValues {
+	gvAll := make([]string, len(getValues))
+	for i, t := range getValues {
 		if t.open {
 			continue
 		}
 		p.define(t)
 		gv = append(gv, p.ref(t))
+		gvAll[i] = p.ref(t)
 	}
 	// find symbols used inside defs text
 	head := &strings.Builder{}
@@ -981,7 +989,7 @@ func (c *Ctx) Query(assumes []*Term, goal *Term, getValues []*Term, timeoutMs in
 	if len(gv) > 0 {
 		fmt.Fprintf(head, "(get-value (%s))\n", strings.Join(gv, " "))
 	}
-	return head.String()
+	return head.String(), gvAll
 }
 
 
